@@ -219,7 +219,35 @@ def targeted(oc):
                                                                         B.item('X2')])]),
         'StoryInsert-mixed-content': B.story_insert('A', [_with_tails(B.story('X', [B.item('X1'), B.p('text'), B.item('X2')]))]),
     }
-    sid = lambda c: 'A' if c in ('StorySend', 'ItemInsert', 'ItemReplace', 'EAItemInsert', 'EAItemReplace') else 'X'
+    # messages that carry nothing: they look elements up, move, swap or delete them - re-used on a second running order
+    # they must act on THAT running order, and their own tree stays as it was (targets absent, blank or present)
+    movers = {
+        'ItemMoveMultiple': B.item_move_multiple('A', ['X2', 'I1']),
+        'ItemMoveMultiple-to-the-end': B.item_move_multiple('A', ['I1', BLANK]),
+        'StoryMove': B.story_move(['X', 'A']),
+        'StoryMove-to-the-end': B.story_move(['A', BLANK]),
+        'EAStoryMove': B.ea('MOVE', {'storyID': 'A'}, [B.ids('storyID', ['X', 'B'])]),
+        'EAStoryMove-no-target': B.ea('MOVE', ABSENT, [B.ids('storyID', ['A'])]),
+        'EAStoryMove-blank-target': B.ea('MOVE', {'storyID': BLANK}, [B.ids('storyID', ['A', 'B'])]),
+        'EAItemMove': B.ea('MOVE', {'storyID': 'A', 'itemID': 'I1'}, [B.ids('itemID', ['X2'])]),
+        'EAItemMove-to-the-end': B.ea('MOVE', {'storyID': 'A', 'itemID': BLANK}, [B.ids('itemID', ['I1'])]),
+        'EAStorySwap': B.ea('SWAP', ABSENT, [B.ids('storyID', ['A', 'X'])]),
+        'EAStorySwap-blank-target': B.ea('SWAP', {'storyID': BLANK}, [B.ids('storyID', ['X', 'B'])]),
+        'EAItemSwap': B.ea('SWAP', {'storyID': 'A'}, [B.ids('itemID', ['I1', 'X2'])]),
+        'StoryDelete': B.story_delete(['B', 'nowhere']),
+        'EAStoryDelete-no-target': B.ea('DELETE', ABSENT, [B.ids('storyID', ['B'])]),
+        'EAStoryDelete-blank-target': B.ea('DELETE', {'storyID': BLANK}, [B.ids('storyID', ['B'])]),
+        'ItemDelete': B.item_delete('A', ['I1']),
+        'EAItemDelete': B.ea('DELETE', {'storyID': 'A'}, [B.ids('itemID', ['I1', 'nowhere'])]),
+        'EAStoryInsert-no-target': B.ea('INSERT', ABSENT, [[X()]]),
+        'EAStoryInsert-blank-target': B.ea('INSERT', {'storyID': BLANK}, [[X()]]),
+        'EAItemInsert-to-the-end': B.ea('INSERT', {'storyID': 'A', 'itemID': BLANK}, [[B.item('N1')]]),
+        'ItemInsert-to-the-end': B.item_insert('A', BLANK, [B.item('N1')]),
+        'ReadyToAir': B.ready_to_air(),
+        'RunningOrderEnd': B.ro_delete(),
+    }
+    carriers.update(movers)
+    sid = lambda c: 'A' if (c in movers or c in ('StorySend', 'ItemInsert', 'ItemReplace', 'EAItemInsert', 'EAItemReplace')) else 'X'
     base_cls = lambda c: c.split('-')[0]
     for cname, carrier in carriers.items():
         s = sid(cname)
@@ -316,7 +344,7 @@ def run_c13(tier, seed):
     oc.extra['monitor'] = ('after every step: id()-sets of the running order, of a second running order fed the same message '
                            'objects, and of every message object merged so far are pairwise disjoint and duplicate-free; '
                            'str(msg) unchanged; re-merging an earlier object == merging a fresh parse')
-    oc.rule = ('targeted three-step histories (12 carrying classes x 6 later edits) and every step of live random histories biased '
+    oc.rule = ('targeted three-step histories (every carrying class and every looking-up / moving / deleting class, with present, blank and absent targets, x 6 later edits) and every step of live random histories biased '
                'towards carrying classes; non-trivial = the step merges a payload-carrying message')
     return oc
 
